@@ -174,7 +174,7 @@ def check(run, replay=None):
                 add("pdd_frac %s %s %s %s <= pdd_frac %s %s %s %s + 1 / 1000000000000" % (R(pmin), R(pnom), R(pexp), R(a), R(pmin), R(pnom), R(pexp), R(b)),
                     {"check": "curve non-decreasing", "effective": [pmin, pnom, pexp], "p": a, "q": b})
     # reported (pressure, demand) pairs of PDD simulations -------------------------------------------------------
-    nets = 20 if thorough else 4
+    nets = 20 if thorough else 6
     for k in range(nets):
         spec = netgen.gen_spec(rng, feat={"pdd": 1.0, "leaks": 0.0, "rules": 0.0, "level_controls": 0.0, "pressure_controls": 0.0})
         spec["options"]["demand_model"] = "PDD"
@@ -184,15 +184,36 @@ def check(run, replay=None):
             wn = netgen.build(spec, wntr)
         except Exception:
             continue
+        # controls change some junctions' required (or minimum) pressure during the run: from then on each follows its NEW curve
+        changed = {}
+        if spec["junctions"] and rng.random() < 0.85:
+            from wntr.network.controls import ControlAction, Control
+            o_ = spec["options"]
+            for jc in rng.sample(spec["junctions"], min(4, len(spec["junctions"]))):
+                pm_, pn_ = jc.get("minimum_pressure", o_["minimum_pressure"]), jc.get("required_pressure", o_["required_pressure"])
+                if rng.random() < 0.75:
+                    attr_, val_ = "required_pressure", round(pn_ * rng.choice([0.6, 1.5, 2.0, 3.0]), 2)
+                    ok_ = val_ - pm_ >= 0.5
+                else:
+                    attr_, val_ = "minimum_pressure", round(pm_ + rng.choice([1.0, 2.5]), 2)
+                    ok_ = pn_ - val_ >= 0.5
+                if ok_:
+                    t_ch = int(o_["hydraulic_timestep"])
+                    wn.add_control("chg_pdd_" + jc["name"], Control._time_control(wn, t_ch, "SIM_TIME", False, ControlAction(wn.get_node(jc["name"]), attr_, val_)))
+                    changed[jc["name"]] = (jc["name"], attr_, val_, t_ch)
+                    run.count("control on " + attr_)
         res, err, warns, sim = simrun.run(wntr, wn)
         if not simrun.converged(res, err, warns):
             continue
         o = spec["options"]
         ps = int(wn.options.time.pattern_start)
         mult = wn.options.hydraulic.demand_multiplier
-        for t in list(res.node["demand"].index)[:3]:
+        for t in list(res.node["demand"].index)[:(5 if changed else 3)]:
             for j in spec["junctions"]:
                 name = j["name"]
+                if name in changed and int(t) >= changed[name][3]:
+                    j = dict(j)
+                    j[changed[name][1]] = changed[name][2]
                 jn = wn.get_node(name)
                 p = float(res.node["pressure"].loc[t, name])
                 dem = float(res.node["demand"].loc[t, name])
@@ -206,7 +227,7 @@ def check(run, replay=None):
                 dexp = jn.demand_timeseries_list.at(int(t) + ps, multiplier=mult)
                 add("Rabs (%s - %s * pdd_frac %s %s %s %s) <= 1 / 200000" % (R(dem), R(dexp), R(pmin), R(pnom), R(pexp), R(p)),
                     {"check": "reported demand on the curve", "spec_options": o, "junction": j, "time": int(t), "pressure": p, "demand": dem,
-                     "requested": dexp}, dexp > 0)
+                     "requested": dexp, "parameter_changed_by_a_control": changed.get(name)}, dexp > 0)
     res_, errors = common.run_prop_cases("C07", HEADER, TACTIC, cases, shard=40, case_timeout=40)
     for e in errors:
         run.tie_broken("correspondence case file failed to compile", e)
